@@ -638,7 +638,24 @@ def _sources(prog: Program, res: Result):
     srcs = []
     for c, (lbl, attr) in zip(calls, (("g", "self.radial_numerical.g"), ("g_bhw", "self.radial_numerical.g_bhw"))):
         bb = bind_args(comb, c)
-        got = {k: ast.unparse(v) for k, v in bb.items()}
+        ndefs = {}
+        for s_ in ast.walk(fi.node):
+            if isinstance(s_, ast.Name) and isinstance(s_.ctx, ast.Store):
+                ndefs[s_.id] = ndefs.get(s_.id, 0) + 1
+
+        def through_local(v):
+            # a local bound once to an attribute chain (or its .tolist()) stands for it: log_time_sts = self.radial_numerical.lntts.tolist()
+            for _ in range(3):
+                if isinstance(v, ast.Name) and ndefs.get(v.id) == 1 and isinstance(defs.get(v.id), ast.expr) and v.id != corrected:
+                    d = defs[v.id]
+                    core = d.func.value if isinstance(d, ast.Call) and isinstance(d.func, ast.Attribute) and d.func.attr == "tolist" and not d.args else d
+                    if attr_chain(core) is not None and isinstance(core, ast.Attribute):
+                        v = d
+                        continue
+                break
+            return v
+
+        got = {k: ast.unparse(through_local(v)) for k, v in bb.items()}
         ok = got.get("log_time_lts") == "self.gFunction.log_time" and got.get("g_lts") == corrected and got.get("log_time_sts") == "self.radial_numerical.lntts.tolist()" \
             and got.get("g_sts") == f"{attr}.tolist()"
         res.ob("R11.3", f"{lbl} curve joins {attr} (on radial_numerical.lntts) with the corrected long-time values (on gFunction.log_time)", ok, prog.loc(fi, c))
